@@ -10,6 +10,8 @@ Structural clauses decided:
                           append tn1 = self.tn + self.dt in the same chain as the states
  R4 array fields          every field a solver passes to Solution is an array expression of the row-list (np.array(list), slices of
                           one state array, arrays allocated with the number of time instants), so per-instant indexing is total
+ R6 step count            the iterable of the time-step loop of every fixed-step solver (resolved through tqdm, locals and self
+                          attributes) depends on all of t0, t1 and dt; an np.arange grid has them in (start, stop, step) position
  R5 wrappers              ScipyIVP allocates its post-processed fields with nt = len(t) rows and fills row i in a loop over
                           zip(t, q, u); ScipyDAE transposes every field of sol.y / sol.yp
 """
@@ -58,6 +60,160 @@ def _append_to(node, name):
         and a.value.func.attr == "append" and norm_src(a.value.func.value) == name
 
 
+CANON = ("t0", "t1", "dt")
+TIME_SOLVERS = [("cardillo/solver/rattle.py", "Rattle"), ("cardillo/solver/backward_euler.py", "BackwardEuler"),
+                ("cardillo/solver/dual_stormer_verlet.py", "DualStormerVerlet"), ("cardillo/solver/moreau.py", "Moreau")]
+
+
+def _leaves(expr, fn, cls, depth=0, seen=None):
+    """canonical time leaves (t0/t1/dt) the expression depends on, through locals and self attributes."""
+    seen = seen if seen is not None else set()
+    out = set()
+    for n in ast.walk(expr):
+        d = dotted(n) if isinstance(n, (ast.Name, ast.Attribute)) else None
+        if not d:
+            continue
+        last = d.split(".")[-1]
+        if last in CANON:
+            out.add(last)
+            continue
+        if depth > 5 or d in seen:
+            continue
+        if isinstance(n, ast.Name):
+            defs = [a for a in ast.walk(fn) if isinstance(a, ast.Assign) and any(isinstance(t, ast.Name) and t.id == d for t in a.targets)]
+        elif d.startswith("self.") and d.count(".") == 1:
+            defs = [a for a in ast.walk(cls) if isinstance(a, ast.Assign) and any(norm_src(t) == d for t in a.targets)]
+        else:
+            defs = []
+        for a in defs:
+            out |= _leaves(a.value, fn, cls, depth + 1, seen | {d})
+    return out
+
+
+def _strip_iter(expr, fn, cls, depth=0):
+    """tqdm(X, ...) -> X ; name/self attr with a single definition -> its value; X[1:] -> X."""
+    while depth < 8:
+        depth += 1
+        if isinstance(expr, ast.Call) and (dotted(expr.func) or "").split(".")[-1] in ("tqdm", "enumerate", "list", "trange") and expr.args:
+            expr = expr.args[0]
+            continue
+        if isinstance(expr, ast.Subscript):
+            expr = expr.value
+            continue
+        d = dotted(expr) if isinstance(expr, (ast.Name, ast.Attribute)) else None
+        if d and d.split(".")[-1] not in CANON:
+            scope = fn if isinstance(expr, ast.Name) else cls
+            defs = [a for a in ast.walk(scope) if isinstance(a, ast.Assign) and any(norm_src(t) == d for t in a.targets)]
+            if len(defs) == 1:
+                expr = defs[0].value
+                continue
+        break
+    return expr
+
+
+def _closure(expr, fn, cls, depth=0, seen=None):
+    """the expression and the defining expressions of the locals / self attributes it uses."""
+    seen = seen if seen is not None else set()
+    out = [expr]
+    if depth > 5:
+        return out
+    for n in ast.walk(expr):
+        d = dotted(n) if isinstance(n, (ast.Name, ast.Attribute)) else None
+        if not d or d in seen or d.split(".")[-1] in CANON:
+            continue
+        if isinstance(n, ast.Name):
+            defs = [a for a in ast.walk(fn) if isinstance(a, ast.Assign) and any(isinstance(t, ast.Name) and t.id == d for t in a.targets)]
+        elif d.startswith("self.") and d.count(".") == 1:
+            defs = [a for a in ast.walk(cls) if isinstance(a, ast.Assign) and any(norm_src(t) == d for t in a.targets)]
+        else:
+            defs = []
+        seen.add(d)
+        for a in defs:
+            out += _closure(a.value, fn, cls, depth + 1, seen)
+    return out
+
+
+def _strip_tqdm(expr, fn, cls):
+    """like _strip_iter but stops at the first Subscript (to recognise grid[1:])."""
+    depth = 0
+    while depth < 8:
+        depth += 1
+        if isinstance(expr, ast.Call) and (dotted(expr.func) or "").split(".")[-1] in ("tqdm", "enumerate", "list") and expr.args:
+            expr = expr.args[0]
+            continue
+        d = dotted(expr) if isinstance(expr, (ast.Name, ast.Attribute)) else None
+        if d and d.split(".")[-1] not in CANON:
+            scope = fn if isinstance(expr, ast.Name) else cls
+            defs = [a for a in ast.walk(scope) if isinstance(a, ast.Assign) and any(norm_src(t) == d for t in a.targets)]
+            if len(defs) == 1:
+                expr = defs[0].value
+                continue
+        break
+    return expr
+
+
+def r6_step_count(ctx):
+    rep = ctx.rep
+    for rel, cname in TIME_SOLVERS:
+        cls = ctx.repo.get(rel, cname)
+        fn = ctx.repo.get(rel, f"{cname}.solve")
+        C = f"{rel}:{cname}.solve"
+        loops = []
+        for n in walk_no_nested(fn):
+            if isinstance(n, ast.For):
+                has_step = any(isinstance(c, ast.Call) and isinstance(c.func, ast.Attribute) and (c.func.attr == "append" or c.func.attr in ("_step", "step", "_solve_nonlinear_system"))
+                               for c in ast.walk(n))
+                outer = True
+                p = getattr(n, "_parent", None)
+                while p is not None and p is not fn:
+                    if isinstance(p, (ast.For, ast.While)):
+                        outer = False
+                    p = getattr(p, "_parent", None)
+                if has_step and outer:
+                    loops.append(n)
+        if len(loops) != 1:
+            raise AnalysisError(f"{C}: expected exactly one outer time-step loop, found {len(loops)}")
+        loop = loops[0]
+        it = _strip_iter(loop.iter, fn, cls)
+        dep = _leaves(it, fn, cls)
+        missing = [c for c in CANON if c not in dep]
+        if missing:
+            rep.bad("C20.R6", C, it, f"the number of time steps ({norm_src(it)[:80]}) does not depend on {', '.join(missing)}: the grid cannot end at the first point at or after t1 "
+                    f"for every initial time, final time and step", f"{rel}:{loop.lineno}")
+            continue
+        if isinstance(it, ast.Call) and (dotted(it.func) or "").split(".")[-1] == "arange":
+            if len(it.args) != 3:
+                rep.bad("C20.R6", C, it, "np.arange grid without explicit (start, stop, step)", f"{rel}:{loop.lineno}")
+                continue
+            pos = [_leaves(a, fn, cls) for a in it.args]
+            want = (("t0",), ("t1",), ("dt",))
+            okp = "t0" in pos[0] and "t1" not in pos[0] and "t1" in pos[1] and "t0" not in pos[1] and pos[2] == {"dt"}
+            # counting idiom (whole arange iterated, time advanced per step): stop = t1 gives ceil((t1 - t0)/dt) steps;
+            # grid idiom (grid[1:] iterated, the grid is the time field): stop = t1 + dt so that the grid reaches t1
+            sliced = isinstance(_strip_tqdm(loop.iter, fn, cls), ast.Subscript)
+            if okp and sliced and pos[1] != {"t1", "dt"}:
+                rep.bad("C20.R6", C, it, "pre-computed grid iterated from its second point must extend to t1 + dt, otherwise it ends before the final time", f"{rel}:{loop.lineno}")
+                continue
+            if okp and not sliced and pos[1] != {"t1"}:
+                rep.bad("C20.R6", C, it, "a step-counting np.arange(t0, stop, dt) must stop at t1: any larger stop adds a step beyond the first grid point at or after t1",
+                        f"{rel}:{loop.lineno}")
+                continue
+            if okp:
+                rep.ok("C20.R6", C, f"step loop over {norm_src(it)}: start from t0, stop from t1, step dt")
+            else:
+                rep.bad("C20.R6", C, it, "np.arange grid whose (start, stop, step) are not (t0, t1[+dt], dt)", f"{rel}:{loop.lineno}")
+        else:
+            # other idioms: a count must be built from the span t1 - t0
+            exprs = _closure(it, fn, cls)
+            span = any(isinstance(b, ast.BinOp) and isinstance(b.op, ast.Sub) and "t1" in _leaves(b.left, fn, cls) and "t0" in _leaves(b.right, fn, cls)
+                       for e in exprs for b in ast.walk(e)) or \
+                any(isinstance(c, ast.Call) and (dotted(c.func) or "").split(".")[-1] in ("linspace", "arange") for e in exprs for c in ast.walk(e))
+            if span:
+                rep.ok("C20.R6", C, f"step loop over {norm_src(it)[:100]}: depends on t0, t1, dt through the span t1 - t0")
+            else:
+                rep.bad("C20.R6", C, it, "the step count mentions t0, t1 and dt but not the span t1 - t0 (nor a grid from t0 to t1)", f"{rel}:{loop.lineno}")
+
+
 def run(ctx):
     rep = ctx.rep
     rep.rule("C20.R1", "output lists are appended in lockstep, once per step", 30)
@@ -65,6 +221,8 @@ def run(ctx):
     rep.rule("C20.R3", "grid / loop pairing", 4)
     rep.rule("C20.R4", "Solution fields are array expressions of the row lists", 40)
     rep.rule("C20.R5", "ScipyIVP / ScipyDAE field shapes", 8)
+    rep.rule("C20.R6", "the step loop's iterable is a function of the initial time, the final time and the step", 4)
+    r6_step_count(ctx)
     for rel, q, stepq in SOLVERS:
         fn = ctx.repo.get(rel, q)
         lists = _solution_lists(fn)
@@ -252,4 +410,17 @@ MUTANTS = [
     dict(id="c20-m8", what="DualStormerVerlet: time not advanced", file="cardillo/solver/dual_stormer_verlet.py",
          old="        self.tn = tn1\n        self.qn = qn1.copy()", new="        self.qn = qn1.copy()", expect="C20.R3"),
 ]
-NEUTRAL = []
+MUTANTS += [
+    dict(id="c20-r6-seed", canary=True, what="[seeded by sub-agent] Rattle: step count int(ceil(t1 / dt)) forgets the initial time", file=RT,
+         old="        pbar = tqdm(np.arange(self.t0, self.t1, self.dt))", new="        n_steps = int(np.ceil(self.t1 / self.dt))\n        pbar = tqdm(range(n_steps))", expect="C20.R6"),
+    dict(id="c20-r6-2", what="BackwardEuler: grid starts at 0 instead of t0", file="cardillo/solver/backward_euler.py",
+         old="        pbar = tqdm(np.arange(self.t0, self.t1, self.dt))", new="        pbar = tqdm(np.arange(0, self.t1, self.dt))", expect="C20.R6"),
+    dict(id="c20-r6-3", what="Moreau: pre-computed grid stops before t1", file="cardillo/solver/moreau.py",
+         old="        self.t = np.arange(t0, self.t1 + self.dt, self.dt)", new="        self.t = np.arange(t0, self.t1, self.dt)", expect="C20.R6"),
+    dict(id="c20-r6-4", what="DualStormerVerlet: one step too many", file="cardillo/solver/dual_stormer_verlet.py",
+         old="        self.pbar = tqdm(np.arange(self.t0, self.t1, self.dt))", new="        self.pbar = tqdm(np.arange(self.t0, self.t1 + self.dt, self.dt))", expect="C20.R6"),
+]
+NEUTRAL = [
+    dict(id="c20-n1", canary=True, what="Rattle: step count from the span (t1 - t0) / dt", file=RT,
+         old="        pbar = tqdm(np.arange(self.t0, self.t1, self.dt))", new="        n_steps = int(np.ceil((self.t1 - self.t0) / self.dt))\n        pbar = tqdm(range(n_steps))"),
+]
